@@ -105,8 +105,29 @@ func verifInt(fr *frame, args []value) value {
 
 // Len(name, lo, hi): like Int but concretised at once (one path per value).
 func verifLen(fr *frame, args []value) value {
+	i := fr.i
+	_, slo := args[1].(sym)
+	_, shi := args[2].(sym)
+	if !slo && !shi {
+		// concrete range: a free n-way choice, no solver involved
+		lo, hi := asInt64(args[1]), asInt64(args[2])
+		if lo > hi {
+			i.abort(abortInfeasible, "empty range")
+		}
+		if hi-lo > 4096 {
+			i.abort(abortBound, "verif.Len range larger than 4096")
+		}
+		k := lo
+		if hi > lo {
+			k = lo + int64(i.chooseN(int(hi-lo+1), "verif.Len "+argStr(args[0])))
+			t := i.newInput(argStr(args[0]), "int", bvSort(64))
+			tt := i.ps.tt
+			i.addPC(tt.eq(t, tt.mkBV(uint64(k), 64)))
+		}
+		return int(k)
+	}
 	v := verifInt(fr, args)
-	return fr.i.concretizeInt(v, "verif.Len "+argStr(args[0]))
+	return i.concretizeInt(v, "verif.Len "+argStr(args[0]))
 }
 
 func verifChoice(fr *frame, args []value) value {
